@@ -10,6 +10,10 @@ for f in $(git diff --name-only --diff-filter=U); do
       cp /tmp/kf_ours $f; grep -vxFf /tmp/kf_ours /tmp/kf_theirs >> $f; git add $f;;
     MANIFEST.json) git checkout --ours $f 2>/dev/null; git add $f;;
     evidence/*) git checkout --theirs $f; git add $f;;
+    harness/src/main.rs|harness/Cargo.toml)
+      # union merge: keep both sides' added lines
+      git show :1:$f > /tmp/mb_base; git show :2:$f > /tmp/mb_ours; git show :3:$f > /tmp/mb_theirs
+      git merge-file --union /tmp/mb_ours /tmp/mb_base /tmp/mb_theirs; cp /tmp/mb_ours $f; git add $f;;
     *) echo "UNRESOLVED: $f";;
   esac
 done
